@@ -94,6 +94,9 @@ func (i *interpreter) resolve(fn *ssa.Function) *fnAction {
 	if f, ok := intrinsics[name]; ok {
 		return &fnAction{intrinsic: f}
 	}
+	if f, ok := reflectIntrinsics[name]; ok {
+		return &fnAction{intrinsic: f}
+	}
 	pp := pkgPathOf(fn)
 	switch pp {
 	case "math/big":
